@@ -18,6 +18,7 @@ from harness.modelgen import Oracle, Unbounded, nm, un
 
 AREA = "core"
 PROPS = "PropsC01.v"
+PROOF_AREA = "coreproofs"
 
 
 # ---------------------------------------------------------------------------------------
@@ -270,7 +271,7 @@ def check(run: Run) -> None:
         "x 3 states (declared initial state + 2 random) x 8 entry points; integer-valued polynomial functions so all numbers are "
         "exact; non-trivial = model has >= 3 components; distinct by (model, state)"
     )
-    run.check_proofs(AREA, PROPS)
+    run.check_proofs(PROOF_AREA, PROPS)
     run.assumptions += [
         "Coq 8.16.1 kernel + vm_compute; theorems closed under the global context (see trusted_base)",
         "CPython's evaluation of rate functions is abstracted as fsem/fsemN (theorems hold for every meaning); floats modelled as Z "
